@@ -9,6 +9,8 @@ count equal those of the same program run alone."""
 import copy
 import gc
 import hashlib
+import json
+import zlib
 import os
 import random
 import sys
@@ -146,6 +148,15 @@ class C16(object):
             cfg = gen.swarm(rng, self.cfg)
             spec = gen.gen_program(rng, cfg)
             spec["threaded"] = True
+            # (decided by a digest of the program, so that the generator's stream is unchanged)
+            d = zlib.crc32(json.dumps(spec, sort_keys=True).encode())
+            if d % 5 == 0:
+                spec["handover"] = True
+                spec["root"]["conv"] = "value"
+            if (d // 5) % 5 == 0:
+                # user code inside the scheduler loop raises: the computation is given up with
+                # whatever it had in flight (e.g. a suspended deduplicated call) left behind
+                spec.setdefault("faults", {})["prio_raises"] = 1 + (d // 25) % 3
             progs.append(spec)
         if rng.random() < 0.3:
             progs.insert(rng.randint(0, len(progs)), {"aio_thread": True, "n_yields": rng.randint(1, 4), "templates": []})
@@ -182,6 +193,14 @@ class C16(object):
                 if "harness" in res:
                     raise HarnessError(res["harness"])
                 solo.append(res)
+                # threads that run one after another (thread identifiers are recycled) must not
+                # inherit anything from their predecessors either
+                if res.get("dd_foreign"):
+                    out.append(("dedup-scope", "thread %s, started after the others had ended, received a deduplicated task whose body ran on %s" % (name, res["dd_foreign"])))
+                if spec.get("handover"):
+                    act = [m for (ck, m) in res.get("viol", []) if ck.startswith("active")]
+                    if act:
+                        out.append(("active-task", "thread %s evaluating a task built on another thread: %s" % (name, act[0])))
             real._tools.DeduplicateDecorator.tasks.clear()
             real.DD_OWNER.clear()
             # 2. all programs concurrently under the baton
